@@ -64,11 +64,14 @@ pub(crate) fn create_format_arg(
 
     quote!(
         let arg = {
+            // The field type is written as a generic argument, where it means exactly what it means in the
+            // definition of the type (behind a `&` of the impl header, `dyn A + B` is not a type and the
+            // lifetime bound of `*mut dyn A` is no longer `'static`).
             #[allow(non_camel_case_types)] // We're using __ to help avoid clashes.
-            struct #wrapper<V, M: ?::core::marker::Sized>(V, ::core::marker::PhantomData<M>);
+            struct #wrapper<'a, V: ?::core::marker::Sized, M: ?::core::marker::Sized>(&'a V, ::core::marker::PhantomData<M>);
 
             impl #impl_generics ::core::fmt::Debug
-                for #wrapper<&#field_ty, #ty_ident #ty_generics>
+                for #wrapper<'_, #field_ty, #ty_ident #ty_generics>
                 #where_clause
             {
                 #[inline]
